@@ -152,6 +152,10 @@ structure Target where
   /-- the message loop has ended (status `Stopping`) and `post_stop` is running: the exit
   reason to come and the instant the loop ended -/
   stopping : Option (Reason × Nat) := none
+  /-- the target is still `Starting`: it sits in (a gated) `post_start`, its message loop has not begun.
+  Sends are accepted and queue up (`Starting < Draining`, and `ACTIVE_STATES` contains `Starting`), a stop
+  request waits in its port, only the kill signal is looked at (`run_with_signal`) -/
+  starting : Bool := false
   /-- harness: a message on which the handler returns `Err` is in the mailbox, behind this many messages -/
   poison : Option Nat := none
   /-- ghost: the harness sent such a message -/
@@ -201,6 +205,7 @@ def Target.poisonMsg (T : Target) : Target :=
 def Target.run (T : Target) (now : Nat) : Target :=
   if T.exit.isSome then T
   else if T.killReq then T.exitWith .killed now
+  else if T.starting then T
   else if T.stopping.isSome then T
   else match T.stopReq with
     | some r => T.endLoop r now
@@ -304,6 +309,8 @@ inductive Op
   | dropHandle (i : Nat)
   /-- harness: a message on which the target's handler fails is cast to the target -/
   | fail
+  /-- harness: the target is (still) in its gated `post_start` / the gate opens, the message loop begins -/
+  | startHold | started
   deriving DecidableEq, Repr
 
 def step (s : State) : Op → State
@@ -330,6 +337,8 @@ def step (s : State) : Op → State
   | .psrelease => { s with target := s.target.release s.now }
   | .dropHandle i => { s with dropped := s.dropped ++ [i] }
   | .fail => { s with target := s.target.poisonMsg }
+  | .startHold => { s with target := { s.target with starting := true } }
+  | .started => { s with target := { s.target with starting := false } }
 
 /-- everything but the ownership of the handles: clock, target, timers, quiescent points -/
 def State.seen (s : State) : State := { s with dropped := [] }
@@ -359,6 +368,7 @@ inductive MOp
   | advDrop (d i : Nat)
   | fail
   | advFail (d : Nat)
+  | startHold | started
   deriving DecidableEq, Repr
 
 def fireAll (n : Nat) : List Op := (List.range n).map Op.fire
@@ -383,6 +393,8 @@ def expand (s : State) : MOp → List Op
   | .dropHandle i => [.dropHandle i, .mark]
   | .advDrop d i => [.tick d, .dropHandle i] ++ fireAll s.timers.length ++ [.target, .mark]
   | .fail => [.fail, .target, .mark]
+  | .startHold => [.startHold, .mark]
+  | .started => [.started, .target, .mark]
   | .advFail d => [.tick d, .fail, .target] ++ fireAll s.timers.length ++ [.target, .mark]
 
 def mstep (s : State) (m : MOp) : State := steps s (expand s m)
@@ -548,15 +560,17 @@ def timerPromptOk (s : State) (τ : Timer) : Bool :=
 
 /-- POSITIVE half of `exit_after` / `kill_after` (quiescent points): once a `kill_after` has acted the
 actor is gone; once an `exit_after` has acted it has at least stopped accepting (it is gone, or its
-message loop has ended and it sits in `post_stop`) -/
+message loop has ended and it sits in `post_stop`) — unless it is still `Starting`: there the stop
+request waits until the message loop begins -/
 def stopsOk (s : State) (τ : Timer) : Bool :=
   (!(τ.kind == .killAfter && !τ.sentAt.isEmpty) || s.target.exit.isSome) &&
-  (!(τ.kind == .exitAfter && !τ.sentAt.isEmpty) || s.target.closedAt.isSome)
+  (!(τ.kind == .exitAfter && !τ.sentAt.isEmpty) || s.target.closedAt.isSome || s.target.starting)
 
 /-- DELIVERY, the positive half (quiescent points): as long as the target has never stopped
-accepting, every attempt made so far by a (well-typed) sending timer has been handled -/
+accepting and its message loop runs (it is not still `Starting`), every attempt made so far by a
+(well-typed) sending timer has been handled -/
 def allHandledOk (s : State) : Bool :=
-  s.target.closedAt.isSome ||
+  s.target.closedAt.isSome || s.target.starting ||
     s.timers.zipIdx.all (fun x => !x.1.kind.sends || !x.1.typed ||
       (List.range x.1.sentAt.length).all (fun j =>
         (s.target.handled.map (fun h => (h.1, h.2.1))).contains (x.2, j + 1)))
